@@ -4,7 +4,7 @@ package shimagent
 //vsym:include shim/world.go
 //vsym:entry H09_mode
 //vsym:model golang.org/x/crypto/ssh/agent.NewClient m09NewClient
-//vsym:replay none
+//vsym:replay same-harness
 //vsym:expect-cover C09.hidden C09.sign-hidden-refused C09.plain-listed C09.other-cert-listed C09.memory-cert-listed C09.hidden-removed C09.mode-off-lists-all C09.added-later-hidden
 //vsym:bound H09_mode: construction with newShimAgent over an arbitrary upstream content of 0..2 (thorough 0..3) identities (plain key, certificate whose KeyID decodes, certificate whose KeyID does not), mode on or off; then 0..1 (thorough 0..2) operations from {another client adds a decoding certificate upstream, AddHardCert, Remove of an upstream certificate, RemoveAll}; then List, Signers and Sign for every identity; every certificate window and the clock symbolic with the clock inside the window
 
@@ -46,18 +46,18 @@ func H09_mode() {
 				vAssume(false)
 			}
 			havePlain = true
-			up.ids = append(up.ids, &mwIdent{format: mwKeyFormat, blob: []byte{'k', 1}, comment: "k"})
+			mwUpKey(up, 1, "k")
 		case 1:
 			c := h09Valid(true)
 			upCerts = append(upCerts, c)
-			up.ids = append(up.ids, &mwIdent{format: mwCertFormat, blob: mwCertMarshal(c), comment: "y"})
+			mwUpCert(up, c, "y")
 		case 2:
 			c := h09Valid(false)
 			upCerts = append(upCerts, c)
-			up.ids = append(up.ids, &mwIdent{format: mwCertFormat, blob: mwCertMarshal(c), comment: "n"})
+			mwUpCert(up, c, "n")
 		}
 	}
-	s, err := newShimAgent(&mwConn{}, mode)
+	s, err := newShimAgent(mwUpstreamConn(up), mode)
 	vAssert(err == nil && s != nil, "C09.construction-succeeds")
 	if err != nil || s == nil {
 		return
@@ -72,7 +72,7 @@ func H09_mode() {
 		case 0: // another client adds a YSSHCA certificate to the underlying agent later
 			c := h09Valid(true)
 			upCerts = append(upCerts, c)
-			up.ids = append(up.ids, &mwIdent{format: mwCertFormat, blob: mwCertMarshal(c), comment: "late"})
+			mwUpCert(up, c, "late")
 			vFact("added-later", "yes")
 		case 1:
 			c := h09Valid(vChoose(2, "hw-decodes") == 1)
@@ -96,7 +96,7 @@ func H09_mode() {
 			_, cached := s.upstreamSSHCACertCache[hash(mwCertMarshal(c))]
 			vAssert(!cached, "C09.cache-entry-removed-with-its-certificate")
 			removed[c] = true
-			if mode && mwDecodes[mwCertIndex(c)] {
+			if mode && mwCertDecodes(c) {
 				vReach("C09.hidden-removed")
 			}
 		case 3:
@@ -150,7 +150,7 @@ func H09_mode() {
 			continue
 		}
 		blob := mwCertMarshal(c)
-		hidden := mode && mwDecodes[mwCertIndex(c)]
+		hidden := mode && mwCertDecodes(c)
 		_, sgErr := s.Sign(c, []byte("d"))
 		if hidden {
 			vAssert(!inList(blob), "C09.upstream-ysshca-certificate-not-listed")
@@ -169,14 +169,14 @@ func H09_mode() {
 			vAssert(sgErr == nil, "C09.other-upstream-certificate-usable")
 			if mode {
 				vReach("C09.other-cert-listed")
-			} else if mwDecodes[mwCertIndex(c)] {
+			} else if mwCertDecodes(c) {
 				vReach("C09.mode-off-lists-all")
 			}
 		}
 	}
 	if havePlain {
-		vAssert(inList([]byte{'k', 1}) && inSigners([]byte{'k', 1}), "C09.plain-key-listed")
-		_, e := s.Sign(&mwKey{id: 1}, []byte("d"))
+		vAssert(inList(mwKeyBlob(1)) && inSigners(mwKeyBlob(1)), "C09.plain-key-listed")
+		_, e := s.Sign(mwPlainKey(1), []byte("d"))
 		vAssert(e == nil, "C09.plain-key-usable")
 		vReach("C09.plain-listed")
 	}
